@@ -118,6 +118,20 @@ pub trait Property: 'static {
   fn exhaustive(_tier: Tier) -> bool {
     false
   }
+  /// Run the generated cases in a supervised child process: a case that aborts the process
+  /// (allocation failure, stack overflow, abort in foreign code) or hangs is then identified and
+  /// reported instead of taking the check down. Used by the robustness properties.
+  fn isolate() -> bool {
+    false
+  }
+  /// seconds after which a single case counts as hung (isolated runs only)
+  fn hang_limit_s() -> u64 {
+    120
+  }
+  /// Does the property itself promise termination (C16)? Otherwise a hang is exit 2 (inconclusive).
+  fn hang_is_violation() -> bool {
+    false
+  }
 }
 
 pub fn truncate_value(v: Value, max: usize) -> Value {
@@ -252,6 +266,48 @@ struct Stats {
   panics: u64,
 }
 
+thread_local! {
+  static LAST_PANIC: std::cell::RefCell<Option<(String, String)>> = const { std::cell::RefCell::new(None) };
+}
+
+/// Panics are caught and classified by the properties; the hook only remembers where the last one
+/// of this thread happened (file:line with the checkout prefix removed, and the message).
+pub fn install_quiet_panic_hook() {
+  std::panic::set_hook(Box::new(|info| {
+    let loc = info.location().map(|l| format!("{}:{}", l.file(), l.line())).unwrap_or_else(|| "unknown".into());
+    let loc = match loc.find("searchlite-") {
+      Some(i) => loc[i..].to_string(),
+      None => {
+        // raised inside std / a dependency: key the panic on the innermost searchlite function on the stack
+        let bt = std::backtrace::Backtrace::force_capture().to_string();
+        let frame = bt
+          .lines()
+          .map(|l| l.trim())
+          .filter_map(|l| l.split_once(": ").map(|(_, f)| f))
+          .find(|f| (f.starts_with("searchlite_") || f.starts_with("<searchlite_")) && !f.contains("slverif"))
+          .map(|f| f.to_string());
+        match frame {
+          Some(f) => format!("in:{f}"),
+          None => loc,
+        }
+      }
+    };
+    let msg = if let Some(s) = info.payload().downcast_ref::<String>() {
+      s.clone()
+    } else if let Some(s) = info.payload().downcast_ref::<&str>() {
+      s.to_string()
+    } else {
+      "non-string panic".to_string()
+    };
+    LAST_PANIC.with(|l| *l.borrow_mut() = Some((loc, msg)));
+  }));
+}
+
+/// (location, message) of the last panic caught on this thread since the previous call
+pub fn take_last_panic() -> Option<(String, String)> {
+  LAST_PANIC.with(|l| l.borrow_mut().take())
+}
+
 fn run_guarded<P: Property>(case: &P::Case, ctx: &Ctx) -> Outcome {
   match catch_unwind(AssertUnwindSafe(|| P::run(case, ctx))) {
     Ok(o) => o,
@@ -344,6 +400,12 @@ pub fn replay<P: Property>(path: &Path, tier: Tier) -> i32 {
     }
   };
   let ctx = Ctx { tier, seed: 0, replay: true, known: known.clone() };
+  if std::env::var("VERIF_VERBOSE").is_err() {
+    install_quiet_panic_hook();
+  }
+  if P::isolate() {
+    limit_address_space(24 << 30);
+  }
   let o = run_guarded::<P>(&case, &ctx);
   let mut code = 0;
   for f in o.failures.iter() {
@@ -363,7 +425,122 @@ pub fn replay<P: Property>(path: &Path, tier: Tier) -> i32 {
   code
 }
 
+/// Address-space limit for supervised children: a runaway allocation fails (and aborts) instead of
+/// exhausting the machine.
+fn limit_address_space(bytes: u64) {
+  unsafe {
+    let lim = libc::rlimit { rlim_cur: bytes as libc::rlim_t, rlim_max: bytes as libc::rlim_t };
+    libc::setrlimit(libc::RLIMIT_AS, &lim);
+  }
+}
+
+fn inflight_dir() -> Option<PathBuf> {
+  std::env::var("VERIF_INFLIGHT_DIR").ok().map(PathBuf::from)
+}
+
+fn run_child(args: &[String], envs: &[(&str, String)], timeout_s: u64) -> Option<i32> {
+  let exe = std::env::current_exe().ok()?;
+  let mut cmd = std::process::Command::new(exe);
+  cmd.args(args);
+  for (k, v) in envs {
+    cmd.env(k, v);
+  }
+  let mut child = cmd.spawn().ok()?;
+  let t0 = Instant::now();
+  loop {
+    match child.try_wait() {
+      Ok(Some(st)) => return Some(st.code().unwrap_or(-1)),
+      Ok(None) => {
+        if t0.elapsed().as_secs() > timeout_s {
+          let _ = child.kill();
+          let _ = child.wait();
+          return Some(-2);
+        }
+        std::thread::sleep(std::time::Duration::from_millis(50));
+      }
+      Err(_) => return None,
+    }
+  }
+}
+
+/// Parent side of an isolated run: spawn the real run as a child; if it dies or reports a hang, find
+/// the in-flight case that does it (each worker records its current case before executing it).
+fn supervise<P: Property>(tier: Tier) -> i32 {
+  let t0 = Instant::now();
+  let seed: i64 = std::env::var("VERIF_SEED").ok().and_then(|s| s.trim().parse::<i64>().ok()).unwrap_or(0);
+  let base = if Path::new("/dev/shm").is_dir() { PathBuf::from("/dev/shm/slverif") } else { verif_root().join("target/scratch") };
+  let dir = base.join(format!("inflight-{}-{}", P::ID, std::process::id()));
+  let _ = std::fs::remove_dir_all(&dir);
+  let _ = std::fs::create_dir_all(&dir);
+  let args = vec![P::ID.to_string(), "--tier".to_string(), tier.name().to_string()];
+  let budget = tier.pick(3600, 12 * 3600);
+  let code = run_child(&args, &[("VERIF_CHILD", "1".into()), ("VERIF_INFLIGHT_DIR", dir.display().to_string())], budget);
+  let code = code.unwrap_or(2);
+  if (0..=2).contains(&code) {
+    let _ = std::fs::remove_dir_all(&dir);
+    return code;
+  }
+  // the child died (signal / abort), reported a hang (3) or ran out of its budget (-2)
+  let known = KnownFindings::load(&verif_root().join("known_findings.txt"));
+  let mut files: Vec<PathBuf> = std::fs::read_dir(&dir).map(|rd| rd.filter_map(|e| e.ok().map(|e| e.path())).collect()).unwrap_or_default();
+  files.sort();
+  let mut result = 2;
+  let mut reported = Vec::new();
+  for f in files {
+    let fargs = vec![P::ID.to_string(), "--tier".to_string(), tier.name().to_string(), "--replay".to_string(), f.display().to_string()];
+    let limit = P::hang_limit_s() * 3;
+    let rc = run_child(&fargs, &[("VERIF_CHILD", "1".into()), ("VERIF_QUIET_REPLAY", "1".into())], limit).unwrap_or(2);
+    let sig = match rc {
+      0 | 1 | 2 => continue, // behaves when run alone (a violation found this way is reported by the rerun below)
+      -2 => "case-does-not-terminate".to_string(),
+      other => format!("process-abort-exit-{other}"),
+    };
+    if sig == "case-does-not-terminate" && !P::hang_is_violation() {
+      eprintln!("{}: case {} did not finish within {limit}s (inconclusive)", P::ID, f.display());
+      continue;
+    }
+    let destdir = verif_root().join("replays").join(P::ID);
+    let _ = std::fs::create_dir_all(&destdir);
+    let text = std::fs::read_to_string(&f).unwrap_or_default();
+    let dest = destdir.join(format!("{}-{:016x}.json", sig, fingerprint(&text)));
+    let body = json!({"property": P::ID, "seed": seed, "tier": tier.name(), "signature": sig, "detail": "the process running this case died or hung (see signature); replay it in a fresh process", "case": serde_json::from_str::<Value>(&text).unwrap_or(Value::Null)});
+    let _ = std::fs::write(&dest, serde_json::to_vec_pretty(&body).unwrap());
+    if known.is_known(P::ID, &sig) {
+      println!("KNOWN-FINDING: property={} {} [{}]", P::ID, known.what(P::ID, &sig), sig);
+      if result == 2 {
+        result = 0;
+      }
+    } else {
+      println!("VIOLATION property={} replay={}", P::ID, dest.display());
+      println!("  signature: {sig}");
+      result = 1;
+    }
+    reported.push(sig);
+  }
+  let _ = std::fs::remove_dir_all(&dir);
+  if result == 1 || !reported.is_empty() {
+    let evidence = json!({
+      "property_id": P::ID, "tier": tier.name(), "seed": seed, "level": P::LEVEL,
+      "coverage": {"evaluations": 0, "cases": 0, "distinct_nontrivial": 0, "rule": P::rule(), "samples": [], "classes": {}, "note": "the supervised run died before writing its counters", "aborts": reported},
+      "assumptions": P::assumptions(), "wall_s": t0.elapsed().as_secs_f64(), "violations": if result == 1 { 1 } else { 0 },
+    });
+    let evdir = verif_root().join("evidence");
+    let _ = std::fs::create_dir_all(&evdir);
+    let _ = std::fs::write(evdir.join(format!("{}.json", P::ID)), serde_json::to_vec_pretty(&evidence).unwrap());
+  }
+  if result == 2 {
+    eprintln!("{}: supervised run ended with exit code {code} and no in-flight case reproduces it alone (inconclusive)", P::ID);
+  }
+  result
+}
+
 pub fn run_property<P: Property>(tier: Tier) -> i32 {
+  if P::isolate() && std::env::var("VERIF_CHILD").is_err() && std::env::var("VERIF_NO_ISOLATE").is_err() {
+    return supervise::<P>(tier);
+  }
+  if P::isolate() {
+    limit_address_space(24 << 30);
+  }
   let t0 = Instant::now();
   let seed: u64 = std::env::var("VERIF_SEED").ok().and_then(|s| s.trim().parse::<i64>().ok()).map(|v| v as u64).unwrap_or(0);
   let known = Arc::new(KnownFindings::load(&verif_root().join("known_findings.txt")));
@@ -378,7 +555,7 @@ pub fn run_property<P: Property>(tier: Tier) -> i32 {
   // silence the default panic printer (panics are caught and classified); keep a short line in debug mode
   let verbose = std::env::var("VERIF_VERBOSE").is_ok();
   if !verbose {
-    std::panic::set_hook(Box::new(|_| {}));
+    install_quiet_panic_hook();
   }
 
   let record = {
@@ -428,6 +605,9 @@ pub fn run_property<P: Property>(tier: Tier) -> i32 {
     let mut fixed = P::fixed_cases(tier);
     fixed.extend(committed_regressions::<P>());
     for case in fixed {
+      if let Some(dir) = inflight_dir() {
+        let _ = std::fs::write(dir.join("fixed.json"), serde_json::to_vec(&case).unwrap_or_default());
+      }
       let o = run_guarded::<P>(&case, &ctx);
       if let Some(f) = record(&case, &o, true) {
         let path = save_replay::<P>(&case, &f, seed, tier);
@@ -438,8 +618,31 @@ pub fn run_property<P: Property>(tier: Tier) -> i32 {
     }
   }
 
+  // isolated runs: per-worker start time of the case in flight (0 = idle), watched for hangs
+  let inflight = inflight_dir();
+  let starts: Arc<Vec<AtomicU64>> = Arc::new((0..workers).map(|_| AtomicU64::new(0)).collect());
+  if inflight.is_some() {
+    let starts = starts.clone();
+    let limit = P::hang_limit_s();
+    let t_origin = t0;
+    std::thread::spawn(move || loop {
+      std::thread::sleep(std::time::Duration::from_millis(500));
+      let now = t_origin.elapsed().as_secs() + 1;
+      for s in starts.iter() {
+        let st = s.load(Ordering::Relaxed);
+        if st != 0 && now.saturating_sub(st) > limit {
+          eprintln!("a case has been running for more than {limit}s; stopping the run (exit 3)");
+          std::process::exit(3);
+        }
+      }
+    });
+  }
+
   let mut handles = Vec::new();
   for w in 0..workers {
+    let inflight = inflight.clone();
+    let starts = starts.clone();
+    let t_origin = t0;
     let known = known.clone();
     let stats = stats.clone();
     let stop = stop.clone();
@@ -475,7 +678,14 @@ pub fn run_property<P: Property>(tier: Tier) -> i32 {
             return Ok(());
           }
           let counting = !failed_once.load(Ordering::SeqCst);
+          if let Some(dir) = inflight.as_ref() {
+            let _ = std::fs::write(dir.join(format!("w{w}.json")), serde_json::to_vec(&case).unwrap_or_default());
+            starts[w].store(t_origin.elapsed().as_secs() + 1, Ordering::Relaxed);
+          }
           let o = run_guarded::<P>(&case, &ctx);
+          if inflight.is_some() {
+            starts[w].store(0, Ordering::Relaxed);
+          }
           progress.fetch_add(1, Ordering::Relaxed);
           match record(&case, &o, counting) {
             None => Ok(()),
